@@ -107,3 +107,134 @@ HARNESSES = {
                'trailing slash); each level left normally or by an exception; innermost action: none / scoped '
                'get_configurable call / unscoped probe'),
 }
+
+
+# ---------------------------------------------------------------------------------------------
+# Engine S: the scope stack is private to a thread under every interleaving
+# ---------------------------------------------------------------------------------------------
+import json as _json
+import os as _os
+import subprocess as _subprocess
+import sys as _sys
+
+_ROOT = _os.path.dirname(_os.path.dirname(_os.path.dirname(_os.path.abspath(__file__))))
+
+
+def _setup_threads():
+  world.fresh()
+  gin.parse_config(['a/vw.dflt.a = 1', 'b/vw.dflt.a = 2', 'a/x/vw.dflt.b = 3'])
+
+
+def _nest_program(outer, inner, raises):
+  def prog():
+    seen = []
+    try:
+      with gin.config_scope(outer):
+        seen.append(gin.current_scope())
+        seen.append(world.dflt()[0])             # scoped binding observed by this thread
+        with gin.config_scope(inner):
+          seen.append(gin.current_scope())
+          if raises:
+            raise KeyError('body')
+        seen.append(gin.current_scope())
+    except KeyError:
+      seen.append('raised')
+    seen.append(gin.current_scope())
+    return seen
+  return prog
+
+
+def thread_scenarios(tier):
+  out = [('scopes: a/x | b/y(raises)', [_nest_program('a', 'x', False), _nest_program('b', 'y', True)]),
+         ('scopes: a/x | a/x | b(list)', [_nest_program('a', 'x', False), _nest_program('a', 'x', False),
+                                          _nest_program(['b'], 'z', False)][:3 if tier == 'thorough' else 2])]
+  return out
+
+
+def _check_threads(solo):
+  def check(results, final):
+    for i, r in enumerate(results):
+      if r is None or r[0] == 'exc':
+        return 'thread %d failed: %r' % (i, r)
+      if solo[0] is not None and r[1] != solo[0][i]:
+        return 'thread %d observed %r; alone it observes %r' % (i, r[1], solo[0][i])
+    return None
+  return check
+
+
+def c09_forced(tier: str, scenario: int, schedule: str, shared: str) -> bool:
+  from vf.sched import driver
+  name, programs = thread_scenarios(tier)[scenario]
+  # solo observations first (each program alone)
+  solo = []
+  for p in programs:
+    _setup_threads()
+    solo.append(p())
+  sched = [int(x) for x in schedule.split(',') if x != '']
+  traces, results, errors, final, names = driver.run(programs, _setup_threads, 'forced', sched,
+                                                     list(range(len(programs))), set(shared.split('|')))
+  v = _check_threads([solo])(results, final)
+  if v and _os.environ.get('VERIF_EXPLAIN'):
+    _sys.stderr.write('FAIL: %s\n' % v)
+  return v is None
+
+
+def engine_s_main(tier, seed):
+  import time
+  from vf.sched import driver
+  t0 = time.time()
+  cov = dict(states=0, queries=0, solver_s=0.0, replayed=0, samples=[], sigs={}, exhaustive=True, scenarios=[])
+  violations, infra = [], []
+  for idx, (name, programs) in enumerate(thread_scenarios(tier)):
+    solo = [None]
+    scen = driver.Scenario(name, programs, _setup_threads, lambda m, s: driver.standard_queries(m, s),
+                           _check_threads(solo))
+    # the sequential run gives every thread's solo observations
+    driver.LIST_INIT.clear()
+    traces, results, errors, final, names = driver.run(programs, _setup_threads, 'solo')
+    solo[0] = [r[1] for r in results]
+    try:
+      vs, exhaustive = scen.solve()
+    except Exception:
+      import traceback
+      infra.append('%s: %s' % (name, traceback.format_exc()[-800:]))
+      continue
+    cov['states'] += max(scen.stats['states'], 1)
+    cov['queries'] += max(scen.stats['queries'], 1)
+    cov['solver_s'] += scen.stats['solver_s']
+    cov['replayed'] += scen.forced_runs
+    cov['samples'].extend(scen.samples)
+    cov['sigs'][name] = True
+    cov['exhaustive'] = cov['exhaustive'] and exhaustive and not vs
+    cov['scenarios'].append(dict(name=name, threads=len(programs), learn_iterations=scen.stats['learn_iters'],
+                                 forced_runs=scen.forced_runs, shared=sorted(getattr(scen, 'shared', [])),
+                                 solo_observations=repr(solo[0])[:300]))
+    infra.extend(scen.infra)
+    for text, sched in vs:
+      violations.append(dict(text=text, kwargs=dict(tier=tier, scenario=idx,
+                                                    schedule=','.join(map(str, sched)),
+                                                    shared='|'.join(sorted(scen.shared)))))
+  cov['solver_s'] = round(cov['solver_s'], 2)
+  return dict(coverage=cov, violations=violations, infra=infra,
+              functions=['gin.config:enter_scope', 'gin.config:exit_scope', 'gin.config:current_scope'])
+
+
+def engine_s(tier, seed):
+  env = dict(_os.environ)
+  env.pop('VERIF_NO_CROSSHAIR', None)
+  env['PYTHONPATH'] = _ROOT + ':/repo'
+  p = _subprocess.run([_os.path.join(_ROOT, '.venv', 'bin', 'python'), '-c',
+                       'import json,sys; from vf.harness import c09; '
+                       'sys.stdout.write("@@ENGINE@@" + json.dumps(c09.engine_s_main(%r, %d), default=repr))'
+                       % (tier, seed)],
+                      cwd=_ROOT, env=env, capture_output=True, text=True, timeout=3000)
+  i = p.stdout.rfind('@@ENGINE@@')
+  if i < 0:
+    return dict(coverage=dict(states=0, exhaustive=False), violations=[],
+                infra=['engine S crashed: ' + (p.stderr or p.stdout)[-1500:]])
+  res = _json.loads(p.stdout[i + len('@@ENGINE@@'):])
+  res['violations'] = [('PENDING', 'c09_forced', v['kwargs'], v['text']) for v in res['violations']]
+  return res
+
+
+ENGINES = {'engine_s': engine_s}
